@@ -27,6 +27,8 @@
 #include "Model/Option_VarioFit.hpp"
 #include "Neigh/NeighUnique.hpp"
 #include "Space/ASpaceObject.hpp"
+#include "Variogram/DirParam.hpp"
+#include "Space/SpacePoint.hpp"
 #include "Variogram/Vario.hpp"
 #include "Variogram/VarioParam.hpp"
 
@@ -675,6 +677,238 @@ static void run_fit_part(Ctx& C, int nvar)
     FitCase fc = make_case(idx);
     C.cur_case = std::to_string(mc.id);
     run_one_fit(C, fc, mc.id);
+  }
+}
+
+// ================================================================================================
+// part constraint_routes: every way of DECLARING a constraint x every constrained element x component index x kind of bound, on exact
+// variograms of a known anisotropic model whose unconstrained optimum violates the bound (the constraint is active).
+//   routes: 0 Constraints::addItemFromParamId ; 1 ConsItem::define + addItem ; 2 ConsItem::createFromParamId + addItem
+//   oracle: fit reports failure OR the constraint holds on the returned model; the three routes return the same model (bitwise).
+struct RouteCase { int dimcase, istruct, elem, iv1, type; };  // elem 1 range 2 angle 3 param 4 sill ; type -1 lower 1 upper 2 equal
+static const char* DIMCASE_NAMES[4] = {"2D-2dirs", "2D-4dirs-rotated", "3D-3dirs", "3D-9dirs-rotated"};
+static const char* RSTRUCT_NAMES[3] = {"SPH", "NUG+SPH", "STABLE"};
+
+static Vario* exact_vario(int dimcase, int istruct, VectorDouble& true_ranges, VectorDouble& true_angles)
+{
+  int ndim = dimcase < 2 ? 2 : 3;
+  true_ranges = ndim == 2 ? VectorDouble{4., 2.} : VectorDouble{4., 2., 1.};
+  true_angles = ndim == 2 ? VectorDouble{dimcase == 1 ? 30. : 0., 0.} : (dimcase == 3 ? VectorDouble{30., 20., 10.} : VectorDouble{0., 0., 0.});
+  // the true model
+  double sill_main = istruct == 1 ? 0.8 : 1.;
+  std::unique_ptr<Model> truth(Model::createFromParam(istruct == 2 ? ECov::STABLE : ECov::SPHERICAL, 4., sill_main, 1.5, true_ranges, VectorDouble(), true_angles, nullptr, true));
+  if (!truth) return nullptr;
+  if (istruct == 1) truth->addCovFromParam(ECov::NUGGET, 0., 0.2);
+  // directions
+  VarioParam vp;
+  const int npas = 10; const double dpas = 0.5;
+  std::vector<VectorDouble> codirs;
+  if (ndim == 2)
+  {
+    std::vector<double> angs = dimcase == 0 ? std::vector<double>{0., 90.} : std::vector<double>{0., 45., 90., 135.};
+    for (double a : angs) codirs.push_back({std::cos(a * M_PI / 180.), std::sin(a * M_PI / 180.)});
+  }
+  else
+  {
+    codirs = {{1, 0, 0}, {0, 1, 0}, {0, 0, 1}};
+    if (dimcase == 3) for (auto c : std::vector<VectorDouble>{{1, 1, 0}, {1, 0, 1}, {0, 1, 1}, {1, -1, 0}, {1, 0, -1}, {0, 1, -1}}) codirs.push_back(c);
+  }
+  for (auto& c : codirs)
+  {
+    double n = 0; for (double v : c) n += v * v; n = std::sqrt(n);
+    for (double& v : c) v /= n;
+    vp.addDir(DirParam(npas, dpas, 0.5, 10., 0, 0, TEST, TEST, 0., VectorDouble(), c));
+  }
+  // a small lattice Db only gives the Vario its internal dimensions; every lag is then overwritten with the exact value of the true model
+  std::vector<std::vector<double>> X(ndim), Z(1);
+  for (int k = 0; k < (ndim == 3 ? 3 : 1); k++) for (int j = 0; j < 3; j++) for (int i = 0; i < 3; i++)
+  { X[0].push_back(i); X[1].push_back(j); if (ndim == 3) X[2].push_back(k); Z[0].push_back((double)((i * 7 + j * 3 + k * 5) % 5)); }
+  std::unique_ptr<Db> db(make_db_xz(X, Z));
+  Vario* vario = Vario::computeFromDb(vp, db.get());
+  if (vario == nullptr) return nullptr;
+  SpacePoint p0(VectorDouble(ndim, 0.));
+  double c0 = truth->eval(p0, p0, 0, 0);
+  for (int idir = 0; idir < vario->getDirectionNumber(); idir++)
+  {
+    VectorDouble cd = vario->getCodirs(idir);
+    for (int ip = 0; ip < vario->getLagNumber(idir); ip++)
+    {
+      double h = (ip + 1) * dpas;
+      VectorDouble x(ndim); for (int d = 0; d < ndim; d++) x[d] = h * cd[d];
+      SpacePoint p1(x);
+      vario->setHh(idir, 0, 0, ip, h);
+      vario->setSw(idir, 0, 0, ip, 10.);
+      vario->setGg(idir, 0, 0, ip, c0 - truth->eval(p0, p1, 0, 0));
+    }
+  }
+  vario->setVar(c0, 0, 0);
+  return vario;
+}
+
+static int child_routes(int wfd, const RouteCase& rc)
+{
+  struct rlimit rl; rl.rlim_cur = 600; rl.rlim_max = 610; setrlimit(RLIMIT_CPU, &rl);
+  std::string outbuf;
+  auto V = [&](const std::string& key, const std::string& what) { outbuf += "V\t" + key + "\t" + what + "\n"; };
+  auto O = [&](const std::string& o) { outbuf += "O\t" + o + "\n"; };
+  int ndim = rc.dimcase < 2 ? 2 : 3;
+  defineDefaultSpace(ESpaceType::RN, ndim);
+  VectorDouble tr, ta;
+  std::unique_ptr<Vario> vario(exact_vario(rc.dimcase, rc.istruct, tr, ta));
+  if (!vario) { O("vario-not-built"); child_write(wfd, outbuf); return 0; }
+  VectorECov types = rc.istruct == 0 ? VectorECov{ECov::SPHERICAL} : rc.istruct == 1 ? VectorECov{ECov::NUGGET, ECov::SPHERICAL} : VectorECov{ECov::STABLE};
+  int icov = (int)types.size() - 1;
+  ECov target_type = types[icov];
+  // the bound: violated by the true (= unconstrained optimal) value
+  double truev = rc.elem == 1 ? tr[rc.iv1] : rc.elem == 2 ? ta[rc.iv1] : rc.elem == 3 ? 1.5 : (rc.istruct == 1 ? 0.8 : 1.);
+  double bound;
+  if (rc.elem == 1) bound = rc.type == -1 ? 1.25 * truev : 0.75 * truev;
+  else if (rc.elem == 2) bound = rc.type == 1 ? truev - 10. : truev + 10.;
+  else if (rc.elem == 3) bound = rc.type == -1 ? 1.8 : 1.0;
+  else bound = rc.type == -1 ? 1.5 * truev : 0.5 * truev;
+  EConsElem el = rc.elem == 1 ? EConsElem::RANGE : rc.elem == 2 ? EConsElem::ANGLE : rc.elem == 3 ? EConsElem::PARAM : EConsElem::SILL;
+  EConsType ty = rc.type == -1 ? EConsType::LOWER : rc.type == 1 ? EConsType::UPPER : EConsType::EQUAL;
+  auto value_of = [&](const Model* m, bool& present) -> double {
+    present = false;
+    for (int i = 0; i < m->getCovaNumber(); i++)
+    {
+      const CovAniso* c = m->getCova(i);
+      if (c->getType() != target_type) continue;
+      present = true;
+      if (rc.elem == 1) return c->getRange(rc.iv1);
+      if (rc.elem == 2) return c->getAnisoAngles(rc.iv1);
+      if (rc.elem == 3) return c->getParam();
+      return c->getSill(0, 0);
+    }
+    return NAN;
+  };
+  auto holds = [&](double val) -> bool {
+    double tol = 1e-6 * std::max(1., std::fabs(bound));
+    auto ok1 = [&](double v) { return rc.type == -1 ? v >= bound - tol : rc.type == 1 ? v <= bound + tol : std::fabs(v - bound) <= tol; };
+    if (rc.elem != 2) return ok1(val);
+    for (int k = -2; k <= 2; k++) if (ok1(val + 180. * k)) return true;  // a rotation angle is defined modulo 180 degrees
+    return false;
+  };
+  auto snapshot = [&](const Model* m) {
+    std::string t;
+    for (int i = 0; i < m->getCovaNumber(); i++)
+    {
+      const CovAniso* c = m->getCova(i);
+      t += std::string(c->getType().getKey()) + " sill=" + fmt(c->getSill(0, 0));
+      if (c->hasRange() > 0) t += " ranges=" + vstr(c->getRanges()) + " angles=" + vstr(c->getAnisoAngles());
+      if (c->hasParam()) t += " param=" + fmt(c->getParam());
+      t += "; ";
+    }
+    return t;
+  };
+  std::string cname = std::string(rc.elem == 1 ? "range" : rc.elem == 2 ? "angle" : rc.elem == 3 ? "param" : "sill") + "[" + std::to_string(rc.iv1) + "]" + (rc.type == -1 ? ">=" : rc.type == 1 ? "<=" : "==") + fmt(bound);
+  // unconstrained fit: is the constraint active ?
+  bool active = false;
+  {
+    std::unique_ptr<Model> m0(Model::createFromEnvironment(1, ndim));
+    child_write(wfd, "S\tfit\n");
+    int r0 = m0->fit(vario.get(), types, Constraints(), Option_VarioFit(), Option_AutoFit(), false);
+    bool present = false;
+    double v0 = r0 == 0 ? value_of(m0.get(), present) : NAN;
+    if (r0 == 0 && present && !holds(v0)) active = true;
+    O(active ? "unconstrained-optimum-violates-the-bound" : "constraint-not-active");
+    if (getenv("C17_SHOW")) fprintf(stderr, "unconstrained rc=%d : %s\n", r0, snapshot(m0.get()).c_str());
+  }
+  static const char* RN[3] = {"addItemFromParamId", "define+addItem", "createFromParamId+addItem"};
+  std::string snap[3]; int rcs[3];
+  for (int route = 0; route < 3; route++)
+  {
+    Constraints cons;
+    if (route == 0) cons.addItemFromParamId(el, icov, rc.iv1, 0, ty, bound);
+    else if (route == 1) { ConsItem item = ConsItem::define(el, icov, rc.iv1, 0, ty, bound); cons.addItem(&item); }
+    else { std::unique_ptr<ConsItem> item(ConsItem::createFromParamId(icov, el, ty, bound, 0, rc.iv1, 0)); cons.addItem(item.get()); }
+    std::unique_ptr<Model> m(Model::createFromEnvironment(1, ndim));
+    child_write(wfd, "S\tfit\n");
+    rcs[route] = m->fit(vario.get(), types, cons, Option_VarioFit(), Option_AutoFit(), false);
+    child_write(wfd, "S\tchecks\n");
+    snap[route] = "rc=" + std::to_string(rcs[route]) + " " + (rcs[route] == 0 ? snapshot(m.get()) : std::string());
+    if (getenv("C17_SHOW")) fprintf(stderr, "route %s %s: %s\n", RN[route], cname.c_str(), snap[route].c_str());
+    if (rcs[route] != 0) { O(std::string("route-") + RN[route] + ":fit-reports-failure"); continue; }
+    bool present = false;
+    double val = value_of(m.get(), present);
+    if (!present) { O(std::string("route-") + RN[route] + ":structure-pruned-excluded"); continue; }
+    if (rc.elem == 2)
+    {  // an angle only means something for an anisotropic structure
+      bool aniso = false;
+      for (int i = 0; i < m->getCovaNumber(); i++) if (m->getCova(i)->getType() == target_type) { VectorDouble r = m->getCova(i)->getRanges(); for (size_t d = 1; d < r.size(); d++) if (std::fabs(r[d] - r[0]) > 1e-6 * std::max(r[d], r[0])) aniso = true; }
+      if (!aniso) { O(std::string("route-") + RN[route] + ":isotropic-angle-excluded"); continue; }
+    }
+    O(std::string("route-") + RN[route] + ":judged");
+    if (!holds(val))
+      V(std::string("constraint-route:") + RN[route] + ":" + (rc.elem == 1 ? "range" : rc.elem == 2 ? "angle" : rc.elem == 3 ? "param" : "sill") + ":iv1=" + std::to_string(rc.iv1) + ":not-applied",
+        "constraint " + cname + " declared through " + RN[route] + " is not satisfied: value " + fmt(val) + " ; model " + snap[route]);
+  }
+  for (int route : {0, 2})
+    if (snap[route] != snap[1])
+      V(std::string("constraint-route:") + RN[route] + ":differs-from-define+addItem", "the same constraint " + cname + " gives another model: " + snap[route] + " vs " + snap[1]);
+  child_write(wfd, outbuf);
+  return 0;
+}
+
+VF_PART(constraint_routes)
+{
+  std::vector<RouteCase> menu;
+  for (int dc = 0; dc < 4; dc++)
+  {
+    int ndim = dc < 2 ? 2 : 3;
+    std::vector<std::pair<int, int>> elems;  // (elem, iv1)
+    for (int k = 0; k < ndim; k++) elems.push_back({1, k});
+    if (dc == 1) elems.push_back({2, 0});
+    if (dc == 3) for (int k = 0; k < 3; k++) elems.push_back({2, k});
+    elems.push_back({4, 0});
+    for (auto& e : elems) for (int ty : {-1, 1, 2}) for (int st = 0; st < 2; st++) menu.push_back({dc, st, e.first, e.second, ty});
+    for (int ty : {-1, 1, 2}) menu.push_back({dc, 2, 3, 0, ty});
+  }
+  // dealt to the shards longest-estimated-first (3-D fits with 9 directions, two structures and an angle constraint take up to 17 s for the 4 fits of a case)
+  auto est = [](const RouteCase& r) { return r.dimcase == 3 ? (r.istruct == 1 ? (r.elem == 2 ? 15. : 4.) : 1.) : 0.05; };
+  std::vector<uint64_t> mine;
+  C.ps().space += menu.size();
+  if (!C.only_case.empty()) { uint64_t id = strtoull(C.only_case.c_str(), nullptr, 10); if (id < menu.size()) mine.push_back(id); }
+  else
+  {
+    std::vector<uint64_t> ids(menu.size());
+    for (size_t i = 0; i < ids.size(); i++) ids[i] = i;
+    std::stable_sort(ids.begin(), ids.end(), [&](uint64_t a, uint64_t b) { return est(menu[a]) > est(menu[b]); });
+    std::vector<double> load(C.nshards, 0.);
+    for (uint64_t id : ids)
+    {
+      int best = 0;
+      for (int k = 1; k < C.nshards; k++) if (load[k] < load[best] - 1e-12) best = k;
+      load[best] += est(menu[id]);
+      if (best == C.shard) mine.push_back(id);
+    }
+  }
+  auto one = [&](uint64_t id) {
+    const RouteCase& rc = menu[id];
+    std::string kase = std::to_string(id);
+    std::string what0 = std::string(DIMCASE_NAMES[rc.dimcase]) + " structures=" + RSTRUCT_NAMES[rc.istruct] + " elem=" + std::to_string(rc.elem) + " iv1=" + std::to_string(rc.iv1) + " type=" + std::to_string(rc.type);
+    if (C.verbose) fprintf(stderr, "case %s: %s\n", kase.c_str(), what0.c_str());
+    ChildResult r = run_child([&](int wfd) { return child_routes(wfd, rc); }, 2400., 0, getenv("C17_SHOW") != nullptr);
+    C.eval();
+    std::string stage = "setup"; bool active = false; int judged = 0;
+    std::stringstream ss(r.data); std::string line;
+    while (std::getline(ss, line))
+    {
+      if (line.size() < 2) continue;
+      if (line[0] == 'S') stage = line.substr(2);
+      else if (line[0] == 'O') { std::string o = line.substr(2); C.outcome(o); if (o == "unconstrained-optimum-violates-the-bound") active = true; if (o.find(":judged") != std::string::npos) judged++; }
+      else if (line[0] == 'V') { size_t t = line.find('\t', 2); C.violation(line.substr(2, t - 2), line.substr(t + 1) + " :: " + what0, kase); }
+    }
+    if (!r.clean() || r.code != 0) { C.violation("constraint-route:crash:" + stage + ":" + r.describe(), "the child died (" + r.describe() + ") during " + stage + ": " + what0, kase); return; }
+    if (active && judged > 0) C.nontrivial(id + 1000000007ULL);
+    C.outcome(std::string("elem=") + (rc.elem == 1 ? "range" : rc.elem == 2 ? "angle" : rc.elem == 3 ? "param" : "sill") + ",iv1=" + std::to_string(rc.iv1));
+    if (id % 17 == 0) C.sample("{\"id\":" + std::to_string(id) + ",\"case\":" + jstr(what0) + ",\"result\":" + jstr(r.data.substr(0, 300)) + "}");
+  };
+  for (uint64_t id : mine)
+  {
+    if (C.only_case.empty() && C.expired()) break;
+    C.cur_case = std::to_string(id);
+    one(id);
   }
 }
 
